@@ -157,6 +157,15 @@ func (w *World) FreeStart(t *tape.Tape, batch int) (uint64, bool) {
 	if w.Size >= uint64(batch) && fits(w.Size-uint64(batch)) {
 		cands = append(cands, w.Size-uint64(batch))
 	}
+	// arbitrary positions (mixed direction bits at every level), not only the append position and the ends
+	if w.Size > uint64(batch) {
+		for k := 0; k < 2; k++ {
+			s := (uint64(t.U32())<<20 ^ uint64(t.U32())) % (w.Size - uint64(batch) + 1)
+			if fits(s) {
+				cands = append(cands, s)
+			}
+		}
+	}
 	if len(cands) == 0 {
 		return 0, false
 	}
